@@ -27,7 +27,7 @@ CODES = [1, 2, 3, 5, 7, 10, 13, 14, 16]
 def _rpc(c, kind, out, rng, herr=None):
     if kind == 'unary' and out == 'cwmid':
         out = 'cwrite'
-    if kind != 'unary' and out in ('badreq', 'badreply'):      # codec refusals are judged on unary calls only
+    if kind != 'unary' and out in ('badreq', 'badreply', 'bigreply'):      # codec refusals are judged on unary calls only
         out = 'ok'
     r = dict(c=c, kind=kind, out=out, n=rng.choice([0, 1, 1, 2, 3]) if kind != 'unary' else 0)
     if out == 'herr':
@@ -91,6 +91,19 @@ def _more(rng, tier):
                 for cn in range(0, 4):
                     ch, sh = rng.choice(hs)
                     out.append(_scen(rng, 'unary', o, sn, cn, ch, sh))
+        # more unary calls in flight than the server has workers (8) when it is stopped: whatever a stats handler was told
+        # has begun, it is told has ended
+        for n in (3, 8, 9, 12):
+            for sn in (0, 2):
+                ch, sh = rng.choice(hs)
+                rpcs = [dict(c=c, kind='unary', out='cancel', n=0) for c in range(1, n + 1)]
+                out.append(dict(fam='C20', runner='observers', tag='obs %d unary calls in flight when the server is stopped sn=%d ch=%d sh=%d' % (n, sn, ch, sh),
+                                cn=rng.randint(0, 2), cmode='hand', sn=sn, smode='chain', ch=ch, sh=sh, mods='mqre', rpcs=rpcs, eof=False, retry=0, deny=0, par=n,
+                                steps=[dict(op='rpc:cancel', kind='unary', n=0, herr='') for _ in rpcs] + [dict(op='cfg', par=n, sn=sn, ch=ch, sh=sh)]))
+        # a reply of 5 MiB + 1 byte: a success like any other
+        for sn, cn in ((0, 0), (2, 1)):
+            ch, sh = rng.choice(hs)
+            out.append(_scen(rng, 'unary', 'bigreply', sn, cn, ch, sh, mods='mqe', extra=False))
     return out
 
 
